@@ -518,6 +518,31 @@ def rule_d(ctx):
   rets = [n for n in ast.walk(f.node) if isinstance(n, ast.Return)]
   ctx.ob('C20.d', f.fq, ok, 'Html.escape escapes text with html.escape (&, <, >, quotes)', f.loc,
          'html.escape is no longer applied')
+  # what is escaped is the text itself: the argument of html.escape derives from
+  # the parameter by names only (un-escaping, stripping or slicing first lets
+  # `&lt;script&gt;` through as markup-looking text or drops characters)
+  bad = []
+  ne = 0
+  scan = []
+  for hf in S.helper_closure(idx, f, depth=2):
+    scan += [hf.node] + [n for n in ast.walk(hf.node) if isinstance(n, (ast.FunctionDef, ast.Lambda)) and n is not hf.node]
+  for fn in {id(x): x for x in scan}.values():
+    for c in A.walk_local(fn):
+      if isinstance(c, ast.Call) and A.call_name(c) == 'html_lib.escape':
+        ne += 1
+        arg = c.args[0] if c.args else None
+        def plain(e, depth=0):
+          if isinstance(e, ast.Name):
+            ds = D.defs_of(fn, e.id)
+            return depth < 4 and bool(ds) and all(v is None or plain(v, depth + 1) for _, v in ds)
+          if isinstance(e, ast.Attribute):
+            return plain(e.value, depth)
+          return False
+        if arg is None or not plain(arg) or any(k.arg == 'quote' and A.unparse(k.value) != 'True' for k in c.keywords) or len(c.args) > 1:
+          bad.append(f'line {c.lineno}: `{A.unparse(c, 80)}`')
+  ctx.ob('C20.d', f.fq + '#argument', ne > 0 and not bad,
+         'html.escape is applied to the text itself (not to an un-escaped, stripped or truncated form) with quotes escaped',
+         f.loc, '; '.join(bad) or 'no html_lib.escape call')
   m = idx.module('pyglove.core.views.html.base')
   imp = m.imports.get('html_lib')
   ctx.ob('C20.d', m.name + '#html_lib', imp == 'html', 'html_lib is the standard html module',
